@@ -407,6 +407,9 @@ fn rand_value(r: &mut Rng) -> String {
     if r.chance(1, 12) {
         return crate::gen::boundary_string(r, false);
     }
+    if r.chance(1, 250) {
+        return crate::spell::pow2_len_string(r, false);
+    }
     match r.below(11) {
         10 => {
             // a dictionary token alone or inside plain text
